@@ -3,7 +3,9 @@ package main
 // mode=conc: the REAL compositeSchedule driven through the verif scheduling points. Exactly one worker
 // goroutine runs at a time, from a call (or from the point before rwMu.Lock) to its next such point or
 // its return; the controller releases workers in the order given by `sched`, then lets every worker finish
-// (lowest id first). The event log is compared with the Lean model stepped with the same order.
+// (lowest id first). The event log is compared with the Lean model stepped with the same order, and replayed
+// against the atomic flat spec. Children of the root that are composites themselves are wrapped (noYield): their
+// operations run to completion, i.e. they are atomic objects, as in the model.
 
 import (
 	"bytes"
@@ -17,13 +19,15 @@ import (
 
 	"verifharness/drv"
 
+	"github.com/yandex/pandora/core"
 	"github.com/yandex/pandora/lib/verifhook"
 )
 
 type cworker struct {
-	resume chan struct{}
-	parked chan string
-	left   int // ops not yet returned
+	resume   chan struct{}
+	parked   chan string
+	left     int // ops not yet returned
+	suppress int // >0 while inside a child of the root
 }
 
 var (
@@ -43,19 +47,48 @@ func init() {
 	verifhook.Yield = func(point string) {
 		if w, ok := workers.Load(goid()); ok {
 			cw := w.(*cworker)
+			if cw.suppress > 0 {
+				return
+			}
 			cw.parked <- "K"
 			<-cw.resume
 		}
 	}
 }
 
+// noYield makes a nested schedule an atomic object for the controlled runs.
+type noYield struct{ core.Schedule }
+
+func enter() *cworker {
+	if w, ok := workers.Load(goid()); ok {
+		cw := w.(*cworker)
+		cw.suppress++
+		return cw
+	}
+	return nil
+}
+func leave(cw *cworker) {
+	if cw != nil {
+		cw.suppress--
+	}
+}
+func (n *noYield) Start(t time.Time) { cw := enter(); defer leave(cw); n.Schedule.Start(t) }
+func (n *noYield) Next() (time.Time, bool) {
+	cw := enter()
+	defer leave(cw)
+	return n.Schedule.Next()
+}
+func (n *noYield) Left() int { cw := enter(); defer leave(cw); return n.Schedule.Left() }
+
 func runConc(m map[string]string) string {
 	concMu.Lock()
 	defer concMu.Unlock()
 	t0 := time.Now().Add(-time.Duration(tenHours))
 	tree, _ := parseTree(m["tree"])
-	s := buildReal(tree)
-	s.Start(t0)
+	s := buildReal(tree, true)
+	if m["start"] != "0" {
+		s.Start(t0)
+	}
 	progs := strings.Split(m["prog"], "|")
 	ws := make([]*cworker, len(progs))
 	for i, p := range progs {
@@ -132,14 +165,34 @@ func runConc(m map[string]string) string {
 			break
 		}
 		if !stepW(i) {
-			break
+			okAll = false
+		}
+	}
+	if !okAll {
+		// a worker panicked: release the parked ones so that they do not leak (their results are dropped)
+		for _, w := range ws {
+			if w.left > 0 {
+				go func(w *cworker) {
+					for w.left > 0 {
+						select {
+						case w.resume <- struct{}{}:
+						case ev := <-w.parked:
+							if ev != "K" {
+								w.left--
+							}
+						case <-time.After(200 * time.Millisecond):
+							return
+						}
+					}
+				}(w)
+			}
 		}
 	}
 	return strings.Join(log, ";")
 }
 
-func concLeaf(r *rand.Rand) *node {
-	switch r.Intn(7) {
+func concLeaf(r *rand.Rand, unstarted bool) *node {
+	switch r.Intn(9) {
 	case 0, 1:
 		return mkFin("once:0")
 	case 2, 3:
@@ -148,96 +201,146 @@ func concLeaf(r *rand.Rand) *node {
 		return mkFin(fmt.Sprintf("const:%d:%d", 1+r.Intn(3), int64(1e9)))
 	case 5:
 		return mkFin("const:0:1000000000")
+	case 6:
+		// a nested composite: an atomic child object
+		n := &node{kind: "C"}
+		for j, k := 0, r.Intn(4); j < k; j++ {
+			n.kids = append(n.kids, concLeaf(r, unstarted))
+		}
+		return n
+	case 7:
+		f := int64(r.Intn(2))
+		return &node{kind: "I", is: [4]int64{f, f + int64(r.Intn(4)), int64(1 + r.Intn(2)), 1e9}}
 	default:
+		if unstarted {
+			return mkFin("once:0")
+		}
 		return &node{kind: "U", dur: 1e6} // finished long ago when reached: a zero-token part
 	}
 }
 
-func mkFin(ctor string) *node {
-	n := &node{kind: "F", ctor: ctor}
-	s, dur := ctorLeaf(ctor)
-	n.dur = dur
-	t0 := time.Unix(1_000_000, 0)
-	s.Start(t0)
-	for {
-		tx, ok := s.Next()
-		if !ok {
-			break
+func genProgs(r *rand.Rand) ([]string, int) {
+	nt := 2 + r.Intn(2)
+	var progs []string
+	total := 0
+	for j := 0; j < nt; j++ {
+		l := 1 + r.Intn(4)
+		var sb strings.Builder
+		for x := 0; x < l; x++ {
+			if r.Intn(3) == 0 {
+				sb.WriteByte('L')
+			} else {
+				sb.WriteByte('N')
+			}
 		}
-		n.offs = append(n.offs, int64(tx.Sub(t0)))
+		progs = append(progs, sb.String())
+		total += l
 	}
-	return n
+	return progs, total
 }
 
 func genConc(r *rand.Rand, tier string) []string {
 	var out []string
-	n := 1500
+	n := 2000
 	if tier == "thorough" {
-		n = 15000
+		n = 40000
 	}
 	for i := 0; i < n; i++ {
+		unstarted := r.Intn(3) == 0
 		t := &node{kind: "C"}
 		k := 2 + r.Intn(4)
 		for j := 0; j < k; j++ {
-			t.kids = append(t.kids, concLeaf(r))
+			t.kids = append(t.kids, concLeaf(r, unstarted))
 		}
 		if r.Intn(4) == 0 {
-			t.kids = append(t.kids, &node{kind: "U", dur: int64(20 * time.Hour)})
+			t.kids = append(t.kids, &node{kind: "U", dur: twentyHours})
 		}
-		nt := 2 + r.Intn(2)
-		var progs []string
-		total := 0
-		for j := 0; j < nt; j++ {
-			l := 1 + r.Intn(4)
-			var sb strings.Builder
-			for x := 0; x < l; x++ {
-				if r.Intn(3) == 0 {
-					sb.WriteByte('L')
-				} else {
-					sb.WriteByte('N')
-				}
-			}
-			progs = append(progs, sb.String())
-			total += l
-		}
+		progs, total := genProgs(r)
+		nt := len(progs)
 		var sched []string
 		for x := 0; x < total*3; x++ {
 			sched = append(sched, strconv.Itoa(r.Intn(nt)))
 		}
-		out = append(out, fmt.Sprintf("mode=conc now=%d tree=%s prog=%s sched=%s", tenHours, t.String(), strings.Join(progs, "|"), strings.Join(sched, ",")))
+		st := 1
+		if unstarted {
+			st = 0
+		}
+		out = append(out, fmt.Sprintf("mode=conc now=%d start=%d tree=%s prog=%s sched=%s", tenHours, st, t.String(), strings.Join(progs, "|"), strings.Join(sched, ",")))
 	}
 	if tier == "thorough" {
-		// exhaustive: every interleaving (as a schedule word over {0,1} of length 9) for a family of small trees
+		// exhaustive: every interleaving (as a schedule word over {0,1} of length 11) for a family of small trees
 		fam := [][]string{
 			{"once:1", "once:0", "once:2"},
 			{"once:0", "once:0", "once:1"},
 			{"once:1", "U", "once:1"},
 			{"once:1", "once:0", "T"},
 			{"once:0", "T"},
+			{"once:0", "C(once:0;once:1)", "once:1"},
+			{"once:1", "C()", "C(once:0;T)"},
+			{"I0:2:1", "once:1"},
 		}
-		progs := []string{"NN|NN", "NNN|N", "NL|NN", "LN|NL", "L|NNN", "NLN|LN"}
+		progs := []string{"NN|NN", "NNN|N", "NL|NN", "LN|NL", "L|NNN", "NLN|LN", "LL|NN"}
 		for _, f := range fam {
 			t := &node{kind: "C"}
 			for _, c := range f {
-				switch c {
-				case "U":
-					t.kids = append(t.kids, &node{kind: "U", dur: 1e6})
-				case "T":
-					t.kids = append(t.kids, &node{kind: "U", dur: int64(20 * time.Hour)})
-				default:
-					t.kids = append(t.kids, mkFin(c))
-				}
+				t.kids = append(t.kids, famNode(c))
 			}
 			for _, p := range progs {
-				for w := 0; w < 512; w++ {
-					var sched []string
-					for b := 0; b < 9; b++ {
-						sched = append(sched, strconv.Itoa((w>>b)&1))
+				for st := 0; st <= 1; st++ {
+					if st == 0 && strings.Contains(t.String(), "U1000000") {
+						continue // a short unlimited part cannot be "finished long ago" in an unstarted schedule
 					}
-					out = append(out, fmt.Sprintf("mode=conc now=%d tree=%s prog=%s sched=%s", tenHours, t.String(), p, strings.Join(sched, ",")))
+					for w := 0; w < 2048; w++ {
+						var sched []string
+						for b := 0; b < 11; b++ {
+							sched = append(sched, strconv.Itoa((w>>b)&1))
+						}
+						out = append(out, fmt.Sprintf("mode=conc now=%d start=%d tree=%s prog=%s sched=%s", tenHours, st, t.String(), p, strings.Join(sched, ",")))
+					}
+				}
+			}
+		}
+		// three callers, all words over {0,1,2} of length 8, two trees
+		for _, f := range [][]string{{"once:1", "once:0", "once:1", "T"}, {"once:0", "C(once:0;once:0)", "once:2"}} {
+			t := &node{kind: "C"}
+			for _, c := range f {
+				t.kids = append(t.kids, famNode(c))
+			}
+			for _, p := range []string{"NN|N|L", "N|LN|N", "L|L|NN"} {
+				for w := 0; w < 6561; w++ {
+					var sched []string
+					x := w
+					for b := 0; b < 8; b++ {
+						sched = append(sched, strconv.Itoa(x%3))
+						x /= 3
+					}
+					out = append(out, fmt.Sprintf("mode=conc now=%d start=%d tree=%s prog=%s sched=%s", tenHours, w%2, t.String(), p, strings.Join(sched, ",")))
 				}
 			}
 		}
 	}
 	return out
+}
+
+func famNode(c string) *node {
+	switch {
+	case c == "U":
+		return &node{kind: "U", dur: 1e6}
+	case c == "T":
+		return &node{kind: "U", dur: twentyHours}
+	case strings.HasPrefix(c, "I"):
+		n, _ := parseTree(c + ":1000000000")
+		return n
+	case strings.HasPrefix(c, "C("):
+		n := &node{kind: "C"}
+		inner := c[2 : len(c)-1]
+		if inner != "" {
+			for _, k := range strings.Split(inner, ";") {
+				n.kids = append(n.kids, famNode(k))
+			}
+		}
+		return n
+	default:
+		return mkFin(c)
+	}
 }
